@@ -25,7 +25,13 @@ def gen_case(rng):
         for k in rng.sample(range(n), rng.randint(1, n)):
             if rng.random() < 0.6:
                 pre.append(('d', k, rng.random() < 0.5))
-    return dict(n=n, inputs=inputs, extra=extra, retry=retry, rr=rr, deaths=deaths, refused=refused, poison=poison, pre=pre)
+    flaky = set()
+    if rng.random() < 0.2 and ninp:
+        # transient enqueue failures on live workers: the code must simply offer the same input again (the model has no
+        # such event: it is a stutter)
+        for _ in range(rng.randint(1, 2)):
+            flaky.add((rng.randrange(n), rng.randint(1, ninp)))
+    return dict(n=n, inputs=inputs, extra=extra, retry=retry, rr=rr, deaths=deaths, refused=refused, poison=poison, pre=pre, flaky=flaky)
 
 
 def random_script(rng, case, maxlen=60):
@@ -57,7 +63,7 @@ def random_script(rng, case, maxlen=60):
 
 def run(case, script):
     return D.run_script(case['n'], case['inputs'], script, retry=case['retry'], extra=case['extra'],
-                        return_results=case['rr'], refused=case['refused'], pre=case.get('pre', ()))
+                        return_results=case['rr'], refused=case['refused'], pre=case.get('pre', ()), flaky=case.get('flaky', ()))
 
 
 def line(case, script):
@@ -69,6 +75,7 @@ def describe(case, script):
     c = dict(case)
     c['refused'] = sorted(c['refused'])
     c['poison'] = sorted(c['poison'])
+    c['flaky'] = sorted(c.get('flaky', ()))
     c['script'] = D.script_tokens(script)
     c['pre'] = D.script_tokens(c.get('pre', ()))
     return c
